@@ -473,9 +473,15 @@ class Program(object):
             fget = r[1]['fget']
             # property returning a bound method `return self._getitem`
             rets = [n for n in ast.walk(fget.node) if isinstance(n, ast.Return)]
-            if len(rets) == 1 and isinstance(rets[0].value, ast.Attribute) \
-                    and isinstance(rets[0].value.value, ast.Name) and rets[0].value.value.id == fget.params[0]:
-                return self.method(cls_qual, rets[0].value.attr)
+            if len(rets) == 1:
+                val = rets[0].value
+                if isinstance(val, ast.Name):
+                    # ... through a local bound exactly once: `m = self._getitem; return m`
+                    binds = [n for n in ast.walk(fget.node) if isinstance(n, ast.Assign) and any(isinstance(t, ast.Name) and t.id == val.id for t in n.targets)]
+                    if len(binds) == 1:
+                        val = binds[0].value
+                if isinstance(val, ast.Attribute) and isinstance(val.value, ast.Name) and val.value.id == fget.params[0]:
+                    return self.method(cls_qual, val.attr)
             return fget
         raise AnalysisError("cannot resolve %s.%s to a function (%s)" % (cls_qual, name, r[0]))
 
